@@ -12,12 +12,15 @@ structure S where
   found : List (Nat × Nat)
   published : List BusEv
   lastTx : Int
+  acked : List (Nat × LogE)       -- successful answers of real writes: request ↦ the entry it was answered for
+  peeked : List (Nat × Int)       -- preview ↦ the transaction id that was next when it reached its commit point
 deriving Repr
 
 def countTx (ls : List LogE) : Nat := (ls.filter (·.isTx)).length
 
 def init (durable : List LogE) : S :=
-  { durable := durable, pending := [], mine := [], found := [], published := [], lastTx := (countTx durable : Int) - 1 }
+  { durable := durable, pending := [], mine := [], found := [], published := [], lastTx := (countTx durable : Int) - 1,
+    acked := [], peeked := [] }
 
 /-- does the event describe this entry? (for a revert: which transaction was reverted, which one reverts it) -/
 def describes (e : BusEv) (l : LogE) : Bool :=
@@ -34,7 +37,13 @@ def entryOf (s : S) (a : Nat) : Option LogE :=
     | some id => s.durable.find? (·.id = id)
     | none => none
 
+/-- the id a preview saw as the next one when it reached its commit point (`AppendLog` peeks it there; other
+requests may commit between that point and the preview's answer) -/
+def peekOf (s : S) (a : Nat) : Option Int := (s.peeked.find? (·.1 = a)).map (·.2)
+
 def step (dry : Nat → Bool) (isTxKind : Nat → Bool) (s : S) : Ev → Except String S
+  | .arrive a pt =>
+    if pt = "wait" ∧ dry a then .ok { s with peeked := (a, s.lastTx + 1) :: s.peeked } else .ok s
   | .committed a l lt =>
     if dry a then .error "events: a preview committed a log"
     else .ok { s with mine := (a, l) :: s.mine, pending := s.pending ++ [l], lastTx := lt }
@@ -46,7 +55,12 @@ def step (dry : Nat → Bool) (isTxKind : Nat → Bool) (s : S) : Ev → Except 
   | .ikRead a _ (some id) => .ok { s with found := (a, id) :: s.found }
   | .publish a e =>
     if dry a then .error "events: a preview published an event"
-    else if s.durable.any (describes e) then .ok { s with published := e :: s.published }
+    else if s.durable.any (describes e) then
+      match entryOf s a with
+      | some l =>
+        if describes e l ∧ l ∈ s.durable then .ok { s with published := e :: s.published }
+        else .error "events: the event does not describe the persisted entry of the request that published it"
+      | none => .error "events: an event published by a request without an entry"
     else .error "events: an event without a persisted entry carrying that content"
   | .finish a true _ txid =>
     if dry a then
@@ -54,14 +68,20 @@ def step (dry : Nat → Bool) (isTxKind : Nat → Bool) (s : S) : Ev → Except 
       match entryOf s a with
       | some l => if isTxKind a ∧ txid ≠ l.txid then .error "events: a preview with a recorded key was not answered with that entry" else .ok s
       | none =>
-        if isTxKind a ∧ txid.map (fun (t : Nat) => (t : Int)) ≠ some (s.lastTx + 1) then .error "events: a preview was not answered with the next transaction id" else .ok s
+        if isTxKind a ∧ txid.map (fun (t : Nat) => (t : Int)) ≠ some ((peekOf s a).getD (s.lastTx + 1)) then .error "events: a preview was not answered with the next transaction id" else .ok s
     else match entryOf s a with
-      | some l => if s.published.any (fun e => describes e l) then .ok s else .error "events: acknowledged but never published"
+      | some l =>
+        if s.published.any (fun e => describes e l) then .ok { s with acked := (a, l) :: s.acked }
+        else .error "events: acknowledged but never published"
       | none => .error "events: success without an entry"
   | _ => .ok s
 
-structure Inv (s : S) : Prop where
+structure Inv (dry : Nat → Bool) (s : S) : Prop where
   /-- every event put on the bus corresponds to a persisted entry and carries its content -/
   faithful : ∀ e ∈ s.published, ∃ l ∈ s.durable, describes e l = true
+  /-- every successfully answered real write has a published event describing its entry -/
+  ackedPub : ∀ x ∈ s.acked, dry x.1 = false ∧ ∃ e ∈ s.published, describes e x.2 = true
+  /-- previews commit nothing -/
+  real : ∀ x ∈ s.mine, dry x.1 = false
 
 end Engine.Events
